@@ -7,6 +7,7 @@
 //!   selftest                                    determinism self-test (1 worker vs 16 workers)
 
 #![allow(clippy::type_complexity)]
+#![allow(unexpected_cfgs)]
 
 mod alloc;
 mod crash;
@@ -343,8 +344,9 @@ fn run_miri(args: &[&str], log: Option<&str>) -> (i32, String) {
     run_miri_target(None, args, log)
 }
 
-/// Foreign targets the interpreter can emulate: a big-endian 64-bit and a little-endian 32-bit one.
-const CROSS_TARGETS: [&str; 2] = ["s390x-unknown-linux-gnu", "i686-unknown-linux-gnu"];
+/// Foreign targets the interpreter can emulate: a big-endian 64-bit one, a little-endian 32-bit
+/// one, and the other mainstream 64-bit architecture (code behind `cfg(target_arch = "aarch64")`).
+const CROSS_TARGETS: [&str; 3] = ["s390x-unknown-linux-gnu", "i686-unknown-linux-gnu", "aarch64-unknown-linux-gnu"];
 
 fn run_miri_target(target: Option<&str>, args: &[&str], log: Option<&str>) -> (i32, String) {
     run_miri_full(target, false, args, log)
@@ -663,7 +665,7 @@ fn spawn_part(comp: &str, build: &str, tier: Tier, seed: u64) -> Result<Option<P
         if let Some(run) = run {
             let path = format!("{VD}/replays/{comp}-{build}-{seed}-{run}-crash.replay");
             let _ = std::fs::create_dir_all(format!("{VD}/replays"));
-            let tag = format!("{comp}/{}", if build == "simdbg" { "dbg" } else { "rel" });
+            let tag = format!("{comp}/{}", match build { "simdbg" => "dbg", "simnat" => "nat", _ => "rel" });
             let st = Command::new(&exe)
                 .args(["case-file", comp, &run.to_string(), &seed.to_string(), &tag, "C14.crash", build, &path])
                 .env("VERIF_CASE_TIER", tier.name())
@@ -695,7 +697,7 @@ fn spawn_part(comp: &str, build: &str, tier: Tier, seed: u64) -> Result<Option<P
                 (Some(check), Some(run)) => {
                     let path = format!("{VD}/replays/{comp}-{build}-{seed}-{run}-hang.replay");
                     let _ = std::fs::create_dir_all(format!("{VD}/replays"));
-                    let tag = format!("{comp}/{}", if build == "simdbg" { "dbg" } else { "rel" });
+                    let tag = format!("{comp}/{}", match build { "simdbg" => "dbg", "simnat" => "nat", _ => "rel" });
                     let st = Command::new(&exe)
                         .args(["case-file", comp, &run.to_string(), &seed.to_string(), &tag, check, build, &path])
                         .env("VERIF_CASE_TIER", tier.name())
@@ -773,7 +775,11 @@ fn cmd_check(property: &str, tier: Tier) -> i32 {
                 stub.push(a.to_string());
             }
         }
-        for build in ["simdbg", "simrel"] {
+        // simnat = simrel compiled with -C target-cpu=native: for the components that run the text
+        // scanners, helpers and parsers (code that is most likely to have CPU-specific paths)
+        let nat = ["C01", "C08", "C09p", "C13", "C13t", "C14s", "C16", "C16t"].contains(comp);
+        let builds: &[&str] = if nat { &["simdbg", "simrel", "simnat"] } else { &["simdbg", "simrel"] };
+        for &build in builds {
             let part = match spawn_part(comp, build, tier, seed) {
                 Ok(Some(p)) => p,
                 Ok(None) => continue,
@@ -958,8 +964,8 @@ fn cmd_check(property: &str, tier: Tier) -> i32 {
                 return code;
             }
         }
-        rules.push(format!("[{property}x] the same components (smaller cases, separate seeded stream) executed by the Miri interpreter for the foreign targets {} (big-endian 64-bit, little-endian 32-bit): model violations and Miri 'Undefined Behavior' reports are violations", CROSS_TARGETS.join(", ")));
-        real.push("Miri interpreter emulating s390x (big-endian) and i686 (32-bit usize)".to_string());
+        rules.push(format!("[{property}x] the same components (smaller cases, separate seeded stream) executed by the Miri interpreter for the foreign targets {} (big-endian 64-bit, little-endian 32-bit, aarch64): model violations and Miri 'Undefined Behavior' reports are violations", CROSS_TARGETS.join(", ")));
+        real.push("Miri interpreter emulating s390x (big-endian), i686 (32-bit usize) and aarch64".to_string());
     }
 
     let wall = start.elapsed().as_secs_f64();
